@@ -273,6 +273,8 @@ func guarded(name string, src []byte, f func() error) entryResult {
 	// above normal) ends the case as a runaway
 	tick := time.NewTicker(250 * time.Millisecond)
 	defer tick.Stop()
+	var m0 runtime.MemStats
+	runtime.ReadMemStats(&m0)
 	for {
 		key, why := "", ""
 		select {
@@ -283,7 +285,7 @@ func guarded(name string, src []byte, f func() error) entryResult {
 		case <-tick.C:
 			var m runtime.MemStats
 			runtime.ReadMemStats(&m)
-			if m.HeapAlloc > 6<<30 {
+			if m.HeapAlloc > m0.HeapAlloc+6<<30 {
 				key, why = "runaway-memory", fmt.Sprintf("holds %d MB of heap and has not returned", m.HeapAlloc>>20)
 			}
 		}
